@@ -37,6 +37,27 @@ StructWhy(files, s) ==
          ELSE IF Range(c.implements) # Range(s.unions) \/ Len(c.implements) # Len(s.unions) THEN "class " \o s.dart \o " is not declared as implementing exactly its exported unions"
          ELSE ""
 
+(* ---- null: Go writes null for a nil slice or map; the routine reading such a field must accept it
+   (directly, or by handing the document over to a routine that does) *)
+RECURSIVE NilableKeys(_)
+NilableKeys(fs) ==
+    IF fs = <<>> THEN <<>>
+    ELSE LET f == Head(fs) rest == NilableKeys(Tail(fs)) IN
+         IF EjSkipped(f) \/ f.gomacro = "ignore" THEN rest
+         ELSE IF f.emb = "struct" /\ ~(f.hasjson /\ f.tagname # "") THEN NilableKeys(f.sub) \o rest
+         ELSE IF f.nilable THEN <<EjName(f)>> \o rest ELSE rest
+AllHelpers(files) == UNION {Range(files[i].helpers) : i \in 1..Len(files)}
+RECURSIVE Tolerates(_, _, _)
+Tolerates(files, name, depth) ==
+    \E h \in AllHelpers(files) : h.name = name /\ (h.nullguard \/ (depth < 4 /\ h.delegates # "" /\ Tolerates(files, h.delegates, depth + 1)))
+NullWhy(files, s) ==
+    IF ~HasClass(files, s.dart) THEN ""
+    ELSE LET c == ClassOf(files, s.dart)
+             bad == {i \in 1..Len(c.fromKeys) : i <= Len(c.fromCalls) /\ c.fromKeys[i] \in Range(NilableKeys(s.fields))
+                                               /\ c.fromCalls[i] # "" /\ ~Tolerates(files, c.fromCalls[i], 0)} IN
+         IF bad = {} THEN ""
+         ELSE "fromJson of " \o s.dart \o " reads the key " \o c.fromKeys[CHOOSE i \in bad : TRUE] \o " with a routine that does not accept the null Go writes for a nil slice or map"
+
 (* ---- unions: dispatch on exactly the Go member names *)
 UnionWhy(files, u) ==
     IF ~HasUnion(files, u.dart) THEN "no Dart abstract class for the union " \o u.dart
